@@ -111,8 +111,9 @@ func GenCoverage(r *hx.Rand, module string) *Bundle {
 			{Name: "id", Ty: Ty{Base: local("int32")}},
 			{Name: "data", Ty: Ty{Base: local("bytes")}},
 			{Name: "name", Ty: Ty{Base: local("string")}},
-			{Name: "any", Ty: Ty{Base: BaseT{Kind: BAny}}},
-			{Name: "message", Ty: Ty{Base: BaseT{Kind: BAnyMessage}}},
+			// (any and message fields are rejected in structs since the repair of F43)
+			{Name: "any", Ty: Ty{Base: local("bytes")}},
+			{Name: "message", Ty: Ty{Base: local("string")}},
 			{Name: "last", Ty: Ty{Base: local("bool")}},
 		}
 		f.Defs = append(f.Defs, xs)
